@@ -1,0 +1,30 @@
+//go:build verif
+
+package event
+
+import "github.com/emitter-io/emitter/internal/event/crdt"
+
+// Subset identifiers for VerifEntries.
+const (
+	VerifSubs  = typeSub
+	VerifBans  = typeBan
+	VerifConns = typeConn
+)
+
+// VerifEntries returns, for one subset of the replicated state, every stored key (tombstones
+// included) with its add and remove time. Read-only; used by the runtime monitors under /verif.
+func (st *State) VerifEntries(typ uint8) map[string][2]int64 {
+	out := make(map[string][2]int64)
+	set, ok := st.subsets[typ]
+	if !ok || set == nil {
+		return out
+	}
+	set.Range(nil, true, func(k string, v crdt.Value) bool {
+		out[string([]byte(k))] = [2]int64{v.AddTime(), v.DelTime()}
+		return true
+	})
+	return out
+}
+
+// VerifDurable tells whether the state is backed by the durable sets.
+func (st *State) VerifDurable() bool { return st.durable }
